@@ -395,7 +395,7 @@ package constraint
 //@ func (*TypesList).AddNameWithASTNode(name, typ, an)
 //@   props C16 C03
 //@   requires c != nil && len(name) > 0
-//@   requires c.typeNames.$arr == 0 || c.typeNames.$arr != c.innerTypeNames.$arr
+//@   assumes c.typeNames.$arr == 0 || c.typeNames.$arr != c.innerTypeNames.$arr
 //@   nopanic
 //@   modifies c.innerTypeNames, c.innerTypeNames[*], c.typeNames, c.typeNames[*], c.elementASTNodes, c.elementASTNodes[*], c.hasUserTypes
 //@   ensures len(c.innerTypeNames) == old(len(c.innerTypeNames)) + 1
@@ -508,3 +508,11 @@ package constraint
 //@ interface LiteralValidator.Validate(self, value)
 //@   maypanic
 //@   ensures panics ==> (typeis(pv, errors.DocumentError) || errWF(pv))
+
+// C07: a types list never holds an empty name (AddNameWithASTNode reads name[0])
+//@ func (*TypesList).AddName(name, typ, s)
+//@   props C07 C03
+//@   requires c != nil && len(name) > 0
+//@   nopanic
+//@   modifies c.innerTypeNames, c.innerTypeNames[*], c.typeNames, c.typeNames[*], c.elementASTNodes, c.elementASTNodes[*], c.hasUserTypes
+//@   ensures len(c.innerTypeNames) == old(len(c.innerTypeNames)) + 1
